@@ -545,3 +545,66 @@ def diff_unchanged(a, b, nbase=0, skip=(), ops=1):
             out.append(("faces", "face lists differ"))
     del geo
     return out
+
+
+# --------------------------------------------------------------------------
+# exact comparison (C16: a query that did not move the shape changes nothing at all)
+# --------------------------------------------------------------------------
+def _exact_same(a, b):
+    if isinstance(a, np.ndarray) or isinstance(b, np.ndarray):
+        if not (isinstance(a, np.ndarray) and isinstance(b, np.ndarray)):
+            return False
+        if a.shape != b.shape:
+            return False
+        if a.dtype.kind in "fc" or b.dtype.kind in "fc":
+            return bool(np.array_equal(a, b, equal_nan=True))
+        return bool(np.array_equal(a, b))
+    if isinstance(a, float) and isinstance(b, float):
+        return a == b or (a != a and b != b)
+    if isinstance(a, complex) and isinstance(b, complex):
+        return a == b or (a != a and b != b)
+    if isinstance(a, dict) and isinstance(b, dict):
+        return set(a) == set(b) and all(_exact_same(a[k], b[k]) for k in a)
+    if isinstance(a, (list, tuple)) and isinstance(b, (list, tuple)):
+        return len(a) == len(b) and all(_exact_same(x, y) for x, y in zip(a, b))
+    return a == b
+
+
+GEOMETRY_KEYS = ("vertices", "faces", "normal", "radius", "a", "b", "c")
+
+
+def geometry_bitwise_same(a, b):
+    """Both snapshots show bit-for-bit the same defining geometry (vertices, faces, normal,
+    radii / semi-axes; the centre for shapes without vertices)."""
+    keys = [k for k in GEOMETRY_KEYS if k in a or k in b]
+    if "vertices" not in a:
+        keys += [k for k in ("centroid", "center") if k in a]
+    for k in keys:
+        if k not in a or k not in b or a[k][0] != "ok" or b[k][0] != "ok":
+            return False
+        if not _exact_same(a[k][1], b[k][1]):
+            return False
+    return bool(keys)
+
+
+def diff_exact(a, b, skip=()):
+    """Observables that are not bit-for-bit what they were (raising before and after is
+    'the same', whatever the exception type)."""
+    out = []
+    for k in sorted(set(a) | set(b)):
+        if k in skip or k not in a or k not in b:
+            continue
+        ka, kb = a[k], b[k]
+        if ka[0] != kb[0]:
+            out.append((k, "%s before, %s after" % (ka[0], kb[0])))
+        elif ka[0] == "ok" and not _exact_same(ka[1], kb[1]):
+            why = ""
+            try:
+                xa, xb = np.asarray(ka[1], float), np.asarray(kb[1], float)
+                if xa.shape == xb.shape:
+                    with np.errstate(all="ignore"):
+                        why = " (max|diff| = %.3g)" % float(np.nanmax(np.abs(xa - xb)))
+            except Exception:  # noqa: BLE001
+                pass
+            out.append((k, "not bit-for-bit what it was" + why))
+    return out
